@@ -44,6 +44,12 @@ THEOREMS = [
     "Verif.C06.kwf_starts_sorted",
     "Verif.C06.getitem_all",
     "Verif.C06.down_entry_sum",
+    "Verif.C06.scan_getitem_validation",
+    "Verif.C06.scan_bound_resolution",
+    "Verif.C06.scan_getitem_refines",
+    "Verif.C06.time_to_frame_stop",
+    "Verif.C06.scan_time_window",
+    "Verif.C06.scan_stamp_start",
 ]
 RULE = (
     "kymographs and scans built from generated info waves (P<=5 pixels, <=6 lines/frames, k<=3 samples per pixel, "
@@ -187,12 +193,19 @@ def sop_token(op):
     if k == "index":
         return "index:" + ":".join([str(op[1])] + [enc_opt(x) for x in op[2:6]])
     if k in ("slice", "cropxy"):
-        if k == "cropxy":  # crop_by_pixels(x0, x1, y0, y1) = slice(None), rows y, cols x
+        if k == "cropxy":  # crop_by_pixels(x0, x1, y0, y1): rows y, cols x; not a __getitem__ (start/stop are kept)
             x0, x1, y0, y1 = op[1:5]
-            return "slice:N:N:" + ":".join(enc_opt(x) for x in (y0, y1, x0, x1))
+            return "cropxy:" + ":".join(enc_opt(x) for x in (y0, y1, x0, x1))
         return "slice:" + ":".join(enc_opt(x) for x in op[1:7])
     if k == "slicet":
         return f"slicet:{enc_opt(op[1])}:{enc_opt(op[2])}"
+    if k == "get":  # scan[item] as the user writes it
+        fi, sp = op[1], op[2]
+        ftxt = {"i": lambda: f"i,{fi[1]}", "s": lambda: f"s,{enc_kbound(fi[1])},{enc_kbound(fi[2])}",
+                "sstep": lambda: f"sstep,{enc_kbound(fi[1])},{enc_kbound(fi[2])}", "o": lambda: "o"}[fi[0]]()
+        stxt = [{"s": lambda a=a: f"s,{enc_opt(a[1])},{enc_opt(a[2])}", "sstep": lambda a=a: f"sstep,{enc_opt(a[1])},{enc_opt(a[2])}",
+                 "i": lambda: "i", "o": lambda: "o"}[a[0]]() for a in sp]
+        return ":".join(["get", ftxt] + stxt)
     raise ValueError(op)
 
 
@@ -212,7 +225,8 @@ def ops(case):
     frames = scan_reference(case)
     ftxt = "|".join("[" + ";".join(",".join(f"{v}:{a}:{b}" for v, a, b in row) for row in f) + "]" for f in frames)
     fast_rows = 0 if case["fast"] < case["slow"] else 1
-    return [f"c06.scan {ftxt} {case['dt']} {fast_rows}" + "".join(" " + sop_token(o) for o in case["program"])]
+    w0, w1 = kymo_window(case)
+    return [f"c06.scan {ftxt} {case['dt']} {fast_rows} {w0} {w1}" + "".join(" " + sop_token(o) for o in case["program"])]
 
 
 # ------------------------------------------------------------------ implementation
@@ -268,6 +282,13 @@ def apply_sop(s, op):
         return s.crop_by_pixels(*op[1:5])
     if n == "slicet":
         return s[op[1] : op[2]]
+    if n == "get":
+        fi, sp = op[1], op[2]
+        frame = {"i": lambda: fi[1], "s": lambda: slice(fi[1], fi[2]), "sstep": lambda: slice(fi[1], fi[2], 2),
+                 "o": lambda: 1.5 if fi[1] == "float" else [0, 1]}[fi[0]]()
+        spatial = [{"s": lambda a=a: slice(a[1], a[2]), "sstep": lambda a=a: slice(a[1], a[2], 2), "i": lambda a=a: a[1],
+                    "o": lambda: 0.5}[a[0]]() for a in sp]
+        return s[(frame, *spatial)] if spatial else s[frame]
     raise ValueError(op)
 
 
@@ -340,7 +361,7 @@ def show_scan(s):
     except IndexError:
         pt = "U"  # a derived scan reads it from a second pixel along the fast axis; there is none
     return (f"view frames={ftxt} ranges={rs} absent={'|'.join(absent_shape(x) for x in gf)} ts={ttxt} pt={pt} "
-            f"ppl={int(s.pixels_per_line)} lpf={int(s.lines_per_frame)}")
+            f"ppl={int(s.pixels_per_line)} lpf={int(s.lines_per_frame)} start={int(s.start)} stop={int(s.stop)}")
 
 
 def impl(case):
@@ -604,9 +625,45 @@ def oracle(case, ia):
             return [(int(tmin[0].min()), int(tmax[0].max()) + case["dt"])]
         return [(int(a[0, 0]), int(b.max()) + case["dt"]) for a, b in zip(tmin, tmax)]
 
+    FIRST_TS = 1388534400000000000  # integers below it are frame indices
+    win = kymo_window(case)  # what a time string is relative to; None once a __getitem__ has re-stamped start/stop
+    stamped_first = None  # timestamp of pixel [0,0] of the first frame when start/stop were last stamped
     for op in case["program"]:
         n = op[0]
-        if n == "index":
+        if n == "get":
+            fi, sp = op[1], op[2]
+            if fi[0] in ("sstep", "o"):
+                status = "IndexError"
+                break
+            if fi[0] == "i":
+                try:
+                    sel = [range(len(cur))[fi[1]]]
+                except IndexError:
+                    status = "IndexError"
+                    break
+            else:
+                r = rng_of(tmin, tmax)
+                idx = []
+                for bnd, col in ((fi[1], 0), (fi[2], 1)):
+                    if isinstance(bnd, str):
+                        ns_ = plain_time_string_ns(bnd)
+                        if ns_ is None or win is None:
+                            return None  # not of the plain form / relative to a re-stamped window: left to the model
+                        bnd = win[0] + ns_ if ns_ >= 0 else win[1] + ns_
+                    if bnd is None or bnd < FIRST_TS:
+                        idx.append(bnd)
+                    else:
+                        idx.append(int(np.searchsorted([x[col] for x in r], bnd)))
+                sel = list(range(len(cur)))[idx[0] : idx[1]]
+            if any(a[0] != "s" for a in sp):
+                status = "IndexError"
+                break
+            if fi[0] == "s" and not sel:
+                status = "empty"
+                break
+            ys = slice(sp[0][1], sp[0][2]) if len(sp) > 0 else slice(None)
+            xs = slice(sp[1][1], sp[1][2]) if len(sp) > 1 else slice(None)
+        elif n == "index":
             i = op[1]
             try:
                 sel = [range(len(cur))[i]]
@@ -637,6 +694,8 @@ def oracle(case, ia):
         cur = new
         tmin = [tmin[j][ys, xs] for j in sel]
         tmax = [tmax[j][ys, xs] for j in sel]
+        if n != "cropxy":  # every __getitem__ stamps start/stop anew; crop_by_pixels keeps them
+            win, stamped_first = None, int(tmin[0][0, 0])
     if status != "view":
         return None if ans == status else f"program {case['program']}: expected {status}, implementation gave {ans[:200]}"
     f = fields(ans)
@@ -648,6 +707,12 @@ def oracle(case, ia):
     wr = "[" + ",".join(f"{a}:{b}" for a, b in rng_of(tmin, tmax)) + "]"
     if f["ranges"] != wr:
         return f"frame ranges {f['ranges'][:200]} but the selected frames/pixels span {wr[:200]}"
+    # the view's own window lies inside the source's; after a __getitem__ it starts with pixel [0,0] of its first frame
+    w0, w1 = kymo_window(case)
+    if not (w0 <= int(f["start"]) <= int(f["stop"])):
+        return f"start/stop {f['start']}/{f['stop']} not a window inside the source's, which starts at {w0}"
+    if stamped_first is not None and stamped_first > 0 and int(f["start"]) != stamped_first:
+        return f"start {f['start']} of an indexed scan is not the timestamp {stamped_first} of the first pixel of its first frame"
     # per-pixel timestamps: those of the selected source pixels (mean of a pixel's evenly spaced sample timestamps)
     wt = "|".join("[" + ";".join(",".join(str(int(a + (b - a) // 2)) for a, b in zip(ra, rb)) for ra, rb in zip(fa, fb)) + "]"
                   for fa, fb in zip(tmin, tmax))
@@ -847,7 +912,41 @@ def scan_alphabet(case, rng=None):
         pts = rng.sample(pts, 6)
     for a, b in itertools.product([None] + pts, [None] + pts):
         ops_.append(["slicet", a, b])
+    ops_.extend(scan_item_alphabet(case, frames, tmin, tmax, rng))
     return ops_
+
+
+def scan_item_alphabet(case, frames, tmin, tmax, rng=None):
+    """scan[item] as a user writes it: frame slices whose bounds are None / frame indices / timestamps / time strings
+    counted from the start or back from the stop (on and one ns beside frame starts and stops), with 0-2 spatial slices;
+    steps, scalar spatial items, floats and lists (refused)"""
+    w0, w1 = kymo_window(case)
+    n = len(frames)
+    js = sorted({0, n - 1, n // 2})
+    bounds = [None, 0, 1, -1, n]
+    for j in js:
+        a, b = tmin[j], tmax[j]
+        forms = [a, b, f"{a - w0}ns", f"{(a - w0) // 1000}us {(a - w0) % 1000}ns", f"{a - w0 + 1}ns", f"{b - w0}ns", f"{b - w0 - 1}ns",
+                 f"-{w1 - b}ns", f"-{(w1 - a) // 1000}.{(w1 - a) % 1000:03d}us"]
+        if rng is not None:
+            forms = rng.sample(forms, 3)
+        bounds.extend(forms)
+    out = [["get", ["s", a, b], []] for a, b in itertools.product(bounds, bounds)]
+    if rng is not None and len(out) > 25:
+        out = rng.sample(out, 25)
+    spat = [[["s", 1, None]], [["s", None, None], ["s", None, -1]], [["s", 0, 1], ["s", 1, 2]], [["s", 5, None]]]
+    for sp in spat:
+        out.append(["get", ["s", None, None], sp])
+        out.append(["get", ["i", -1], sp])
+        out.append(["get", ["s", f"{tmin[0] - w0}ns", tmax[-1]], sp])
+    # refused items
+    out += [["get", ["sstep", None, None], []], ["get", ["sstep", 0, 2], [["s", None, None]]], ["get", ["o", "float"], []],
+            ["get", ["o", "list"], []], ["get", ["i", 0], [["i", 0]]], ["get", ["i", 0], [["s", None, None], ["i", 1]]],
+            ["get", ["s", None, None], [["sstep", None, None]]], ["get", ["s", None, None], [["s", None, None], ["o"]]],
+            ["get", ["i", n + 3], [["i", 0]]], ["get", ["sstep", None, None], [["i", 0]]],
+            ["get", ["s", "abc", None], []], ["get", ["s", None, "1ns 1us"], []], ["get", ["s", "", None], []],
+            ["get", ["s", " 5 ns", None], [["i", 0]]]]
+    return out
 
 
 def cases(tier, rng):
@@ -900,7 +999,7 @@ def cases(tier, rng):
         a2 = alpha if not light else r2.sample(alpha, min(len(alpha), 25 if oi < n_full else 12))
         for o1, o2 in itertools.product(a1, a2):
             # timestamps of the second op must be drawn for the derived object; keep index/slice/crop ops only
-            if o2[0] == "slicet":
+            if o2[0] == "slicet" or (o2[0] == "get" and o1[0] in ("index", "slice", "slicet", "get") and r2.chance(0.6)):
                 continue
             yield dict(obj, stream="small-scope", program=[o1, o2])
 
@@ -948,9 +1047,24 @@ def extra_coverage(results):
     # branches of Kymo.__getitem__ as the user calls it, and whether the window invariant the theorems assume
     # (every line inside [start, stop), lines in order and not overlapping) holds on the real objects
     branches, wf = {}, {"holds": 0, "fails": 0, "not-applicable": 0}
+    sbranches = {}
+
+    def bkind(b):
+        if b is None:
+            return "None"
+        if isinstance(b, str):
+            return "string"
+        return "index" if abs(b) < 1388534400000000000 else "timestamp"
+
     for r in results:
         prog = r["case"]["program"]
         if r["case"]["kind"] != "kymo":
+            if prog and prog[-1][0] == "get":
+                fi, sp = prog[-1][1], prog[-1][2]
+                a = r["impl"][0]
+                ftxt = fi[0] if fi[0] not in ("s", "sstep") else f"{fi[0]}({bkind(fi[1])},{bkind(fi[2])})"
+                key = f"scan[{ftxt}{''.join(',' + x[0] for x in sp)}] (op {len(prog)}) -> " + ("view" if a.startswith("view") else a.split(" ")[0])
+                sbranches[key] = sbranches.get(key, 0) + 1
             continue
         a = r["impl"][0]
         if prog and prog[-1][0] in ("get", "getstep", "scalar"):
@@ -969,5 +1083,5 @@ def extra_coverage(results):
         ok = all(a0 < b0 for a0, b0 in rs) and all(rs[i][1] <= rs[i + 1][0] for i in range(len(rs) - 1)) and \
             (not rs or (int(f["start"]) <= rs[0][0] and rs[-1][1] <= int(f["stop"])))
         wf["holds" if ok else "fails"] += 1
-    return {"outcomes": outcomes, "operations": opsn, "object_kinds": kinds, "getitem_branches": branches,
+    return {"outcomes": outcomes, "operations": opsn, "object_kinds": kinds, "kymo_getitem_last_op_vs_final_outcome": branches, "scan_getitem_last_op_vs_final_outcome": sbranches,
             "window_invariant_KWf_on_real_views": wf}
